@@ -154,15 +154,13 @@ class ModbusSocketFramer(ModbusFramer):
                     else:
                         _logger.debug("Not a valid unit id - {}, "
                                       "ignoring!!".format(self._header['uid']))
-                        self.resetFrame()
-                else:
-                    _logger.debug("Frame check failed, ignoring!!")
-                    self.resetFrame()
+                        # skip this frame only, later frames may be for us
+                        self.advanceFrame()
+                elif self._header['len'] >= 2:
+                    # the frame is not complete yet, wait for the rest
+                    break
             else:
-                if len(self._buffer):
-                    # Possible error ???
-                    if self._header['len'] < 2:
-                        self._process(callback, error=True)
+                # not even a complete MBAP header yet, wait for the rest
                 break
 
     def _process(self, callback, error=False):
